@@ -6,7 +6,7 @@
    the model is unique and [cden] computes it; [vden] is the TRIPOLI-4 reading of a
    volume table. *)
 From Coq Require Import List ZArith NArith Bool Reals Permutation Lia.
-From T4V Require Import Base.Scalar C13.Model C13.Spec C13.Proofs C13.ProofsDedup C13.ProofsFill C13.ProofsVol.
+From T4V Require Import Base.Scalar C13.Model C13.ModelTr C13.Spec C13.Proofs C13.ProofsDedup C13.ProofsFill C13.ProofsVol C13.ProofsTr.
 Import ListNotations.
 Open Scope Z_scope.
 
@@ -262,6 +262,39 @@ Theorem C13_fill_geometry_den : forall sigma rho dic fd fg key cell elt ec,
   geval sigma rho (fill_geometry fd fg key (cgeom cell) elt (cgeom ec)) = rho key && rho elt.
 Proof. exact fill_geometry_den. Qed.
 Print Assumptions C13_fill_geometry_den.
+
+(* ---- FILL with transformations (FILL=n (tr), TRCL of the filled cell) ---- *)
+(* P = points, [act t p] = the point at which the original object is looked at
+   (interface law of C04: a surface made by pot_transform from s with t has, at p,
+   the sense s has at act t p).  (senv, D) is a semantics of a state when the
+   recorded surfaces obey the law and D is a model of the cell table at every
+   point.  cell_transform (cache on or off, nested CellRefs included): in every
+   semantics of the resulting state the new cell is the old cell seen through t *)
+Theorem C13_cell_transform_den : forall (Tr P : Type) (tr_eqb : Tr -> Tr -> bool) (act : Tr -> P -> P),
+  (forall a b, tr_eqb a b = true -> forall p, act a p = act b p) ->
+  forall fuel t use_cache c st k st', wf act st ->
+  ctransform tr_eqb fuel t use_cache c st = Ok (k, st') ->
+  wf act st' /\ text st st' /\
+  forall senv D, sem act st' senv D -> forall p, D k p = D c (act t p).
+Proof. intros Tr P tr_eqb act H fuel t uc. exact (ctransform_spec tr_eqb act H fuel t uc). Qed.
+Print Assumptions C13_cell_transform_den.
+
+(* C13_fill_geometry_den with transformations: for the four combinations of
+   --always-inline-filled / --always-inline-filling (the second also switches the
+   cell_transform cache off), every cell pot_fill creates for container [key] and
+   filler e denotes, at every point p,  container at p  AND  filler at the point
+   reached through the FILL transformation (or the TRCLs in order) *)
+Theorem C13_fill_geometry_den_tr : forall (Tr P : Type) (tr_eqb : Tr -> Tr -> bool) (act : Tr -> P -> P),
+  (forall a b, tr_eqb a b = true -> forall p, act a p = act b p) ->
+  forall fuel fd fg ts key cell elts st acc ks st', wf act st ->
+  lookup key (tcells st) = Some cell ->
+  make_cells_tr tr_eqb fuel fd fg ts key cell elts st acc = Ok (ks, st') ->
+  wf act st' /\ text st st' /\
+  exists news, ks = acc ++ news /\
+    forall senv D, sem act st' senv D ->
+      Forall2 (fun k' e => forall p, D k' p = D key p && D e (fold_right act p ts)) news elts.
+Proof. intros Tr P tr_eqb act H. exact (make_cells_tr_den tr_eqb act H). Qed.
+Print Assumptions C13_fill_geometry_den_tr.
 
 (* the FILL loop under two pairs of inline flags runs in lock-step: same outcome
    (same exception or both succeed), same counter, same keys / universes / FILL
